@@ -12,6 +12,7 @@ connection and fed to this model as labels (tie D). Transport errors are modelle
 callback theorems hold with them, the wire theorems are stated for a transport that has not failed (`healthy`).
 -/
 import Sonic.Lemmas.WsAsyncStep
+import Sonic.Spec.WsAsync
 
 namespace Sonic.Props.C17
 open Sonic.Model.WsAsync
@@ -93,6 +94,30 @@ theorem C17_pending_callback_has_reactor {s : St} (h : Reach prog s) (hst : s.st
         · exact hcc
         · simp [hcc] at h1; omega
       exact ⟨rk, by rw [this]⟩
+
+/-- **A callback is entered only while it is owed.** The model takes an `enter cb` transition only for a callback that
+was handed to the API and has not run yet (the transition-level form of "never twice, never invented"). -/
+theorem C17_enter_only_owed {s s' : St} {cb : CbId} {r : Res} (h : Reach prog s)
+    (hs : step true prog s (.enter cb r) = some s') : cb ∈ s.started ∧ cb ∉ s.log := by
+  have hI := reach_inv h
+  simp only [step] at hs
+  split at hs
+  · rename_i cb' r' isRead rest hst
+    split at hs
+    · rename_i hcr
+      obtain ⟨rfl, rfl⟩ := hcr
+      have h1 := hI.cbs cb
+      have h2 := hI.nodup.count (a := cb)
+      have h3 : 1 ≤ (owedList s).countP (·.1 == cb) := by
+        simp [owedList, hst, List.flatMap_cons, taskCbs, List.countP_append]
+        omega
+      constructor
+      · exact List.count_pos_iff.1 (by omega)
+      · intro hl
+        have : 0 < s.log.count cb := List.count_pos_iff.2 hl
+        split at h2 <;> omega
+    · cases hs
+  · cases hs
 
 /-- **At most one read is outstanding and it is owed exactly once**: the number of owed reader callbacks is 1 while a
 read is outstanding and 0 otherwise (so the single read reactor is never armed for two readers). -/
@@ -208,5 +233,33 @@ example : ∃ s, Reach rearm s ∧ quiescent s ∧ s.healthy = true ∧ s.starte
 
 /-- The model is not trivially accepting: a callback cannot be entered when the library has not invoked it. -/
 example : run true rearm {} [.call (.read 1), .tau, .ret, .enter 1 .ok] = none := by decide
+
+/-! ### The property monitor (`Spec/WsAsync.lean`) is not trivially accepting
+
+It accepts a correct history and rejects: a callback entered twice, a callback that never ran although the run ended
+with a healthy transport, frames on the wire in another order than they were submitted, a frame on the wire twice, a
+Pong that overtakes a frame queued before the Ping was read. -/
+
+section Monitor
+open Sonic.Spec.WsAsync
+
+def wf (cb op len : Nat) : WireFrame :=
+  { fin := true, rsv := 0, op := op, masked := true, len := len, hash := fnv (pattern cb len), head := (pattern cb len).take 4 }
+
+def aPing : Sonic.Spec.WsStream.InFrame := { fin := true, rsv := 0, op := 9, masked := false, payload := [7] }
+def itsPong : WireFrame := { fin := true, rsv := 0, op := 10, masked := true, len := 1, hash := fnv [7], head := [7] }
+
+example : accepts 1000 [.callFlush 1, .enter 1 .ok none none .active, .exit 1, .ret .active, .finish 0 true] = true := by decide
+example : accepts 1000 [.callFlush 1, .enter 1 .ok none none .active, .exit 1, .enter 1 .ok none none .active] = false := by decide
+example : accepts 1000 [.callRead 1, .ret .active, .finish 0 true] = false := by decide
+example : accepts 1000 [.callWrite 1 1 2, .ret .active, .callWrite 2 2 3, .ret .active, .wire [wf 1 1 2, wf 2 2 3]] = true := by decide
+example : accepts 1000 [.callWrite 1 1 2, .ret .active, .callWrite 2 2 3, .ret .active, .wire [wf 2 2 3, wf 1 1 2]] = false := by decide
+example : accepts 1000 [.callWrite 1 1 2, .ret .active, .wire [wf 1 1 2, wf 1 1 2]] = false := by decide
+example : accepts 1000 [.callRead 1, .ret .active, .callWrite 2 1 2, .ret .active, .peer aPing, .callPoll,
+    .enter 1 .ok (some aPing) none .active, .exit 1, .ret .active, .wire [wf 2 1 2, itsPong]] = true := by decide
+example : accepts 1000 [.callRead 1, .ret .active, .callWrite 2 1 2, .ret .active, .peer aPing, .callPoll,
+    .enter 1 .ok (some aPing) none .active, .exit 1, .ret .active, .wire [itsPong, wf 2 1 2]] = false := by decide
+
+end Monitor
 
 end Sonic.Props.C17
